@@ -113,7 +113,10 @@ def gen_spec(rng, max_world=8, checkpoint=False, clip=None, topo=None, deep=0.1)
         spec['biases'] = [[rng.random() < 0.5 for _ in range(n)] for n in spec['layers']]
     else:
         spec['biases'] = [[spec['bias']] * n for n in spec['layers']]
-    spec['fdt'] = 'float32' if rng.random() < 0.25 else None   # a factor dtype different from the (float64) weight dtype
+    spec['fdt'] = 'float32' if rng.random() < 0.25 else None
+    # a loss scale handed to the preconditioner through grad_scaler (the sharded run scales the loss and unscales the gradients
+    # before step(); the unsharded reference uses no scale at all)
+    spec['scale'] = rng.choice([128.0, 1024.0, 65536.0]) if rng.random() < 0.25 else None   # a factor dtype different from the (float64) weight dtype
     hist = [('train',)] * rng.randint(1, 4)
     if checkpoint:
         pos = rng.randint(1, len(hist))
@@ -252,7 +255,8 @@ def sharded_rank_fn(spec, tmpdir=None):
                     factor_update_steps=spec['F'], inv_update_steps=spec['I'], update_factors_in_hook=spec['hook'],
                     accumulation_steps=spec['acc'], assignment_strategy=spec['strategy'], symmetry_aware=spec['sym'],
                     factor_dtype=(getattr(torch, spec['fdt']) if spec.get('fdt') else None),
-                    factor_checkpoint_dir=(tmpdir if spec.get('factor_dir') else None))
+                    factor_checkpoint_dir=(tmpdir if spec.get('factor_dir') else None),
+                    **({'grad_scaler': (lambda: spec['scale'])} if spec.get('scale') else {}))
             return model, mods, p
 
         model, mods, p = build()
@@ -271,7 +275,11 @@ def sharded_rank_fn(spec, tmpdir=None):
                     x = torch.randn(spec['batch'], din, generator=gen, dtype=torch.float64)
                     if mods:   # a stage without K-FAC layers has nothing to train here
                         out = forward_chain(mods, kinds, x, c.model, spec['mp'])
-                        loss_of(out, width_last, spec['batch']).backward()
+                        (loss_of(out, width_last, spec['batch']) * (spec.get('scale') or 1.0)).backward()
+                if spec.get('scale'):
+                    with torch.no_grad():
+                        for q in model.parameters():
+                            q.grad /= spec['scale']
                 with simdist.harness():
                     for q in model.parameters():
                         if spec['dp'] > 1:
